@@ -4,6 +4,7 @@ the runner can tell "the body changed under the contract" from "the template is 
 import os, sys, json
 sys.path.insert(0, os.path.dirname(os.path.abspath(__file__)))
 import vx, runverus
+seen = set()
 for name, (tpl, cfg) in runverus.UNITS.items():
     p = os.path.join(runverus.VERIF, tpl)
     if not os.path.exists(p):
@@ -12,5 +13,9 @@ for name, (tpl, cfg) in runverus.UNITS.items():
     u.build()
     lost = [f['name'] for f in u.functions if f.get('lost_hints')]
     assert not lost, ('anchors lost on the pinned tree', name, lost)
-    json.dump({f['name']: f['sha'] for f in u.functions}, open(os.path.join(os.path.dirname(p), 'expected.json'), 'w'), indent=1, sort_keys=True)
+    out = os.path.join(os.path.dirname(p), 'expected.json')
+    pins = json.load(open(out)) if (os.path.exists(out) and out in seen) else {}   # units sharing a template share the pin file
+    seen.add(out)
+    pins.update({f['name']: f['sha'] for f in u.functions})
+    json.dump(pins, open(out, 'w'), indent=1, sort_keys=True)
     print(name, len(u.functions), 'functions pinned')
